@@ -10,7 +10,7 @@ import tomlgen
 from common import Result, Machinery
 from vbcommon import World, VALID_BP_TOML, DEFAULT_TARGET_ENV, ensure_vb
 
-NAMES = [b"A", b"a.b", b"with space", b"=x", "ü".encode(), b"\xff"]
+NAMES = [b"A", b"a.b", b"with space", b"=x", "ü".encode(), b"\xff", b".hidden", b"..double"]
 FILE_CONTENTS = [b"", b"v", b"a\nb\n", b" x "]
 KINDS = [("file", c) for c in FILE_CONTENTS] + [("dir", None), ("link-file", b"via-link"), ("link-dir", None), ("dangling", None), ("file", b"\xff\xfe"),
          ("link-file-relative", b"via-relative-link"), ("link-file-sibling", b"via-sibling-link")]
@@ -235,6 +235,8 @@ def judge(w, case):
             open(w.p("bp", "buildpack.toml"), "w").write(VALID_BP_TOML + f"\n[metadata]\n{body}")
     elif kind == "store-absent":
         pass
+    elif kind == "store-empty-metadata":
+        open(w.p("layers", "store.toml"), "w").write("[metadata]\n")
     elif kind == "dir-forms":
         def spell(name, form):
             real = w.p(name)
@@ -278,7 +280,9 @@ def judge(w, case):
         target = {"store": w.p("layers", "store.toml"), "plan": w.p("bp_plan.toml"), "descriptor": w.p("bp", "buildpack.toml")}[case["where"]]
         if os.path.exists(target):
             os.unlink(target)
-        if case["how"] == "non-utf8":
+        if case["how"] == "zero-length":
+            open(target, "wb").write(b"")
+        elif case["how"] == "non-utf8":
             open(target, "wb").write(b"[metadata]\nk = \"\xff\xfe\"\n")
         elif case["how"] == "directory":
             os.mkdir(target)
@@ -358,7 +362,10 @@ def judge(w, case):
             md = c["descriptor"]["metadata"]
             if md is None or not tomlgen.same(tomlgen.from_vbjson(md), want):
                 bad("descriptor-metadata-altered", f"descriptor metadata in context {md} differs from buildpack.toml ({want})")
-    if kind != "toml" or case["where"] != "store":
+    if kind == "store-empty-metadata":
+        if c["store"] is None or not tomlgen.same(tomlgen.from_vbjson(c["store"]), ("t", {})):
+            bad("store-altered", f"store.toml holds an empty metadata table, context.store = {c['store']}")
+    elif kind != "toml" or case["where"] != "store":
         if phase == "build" and c["store"] is not None:
             bad("store-invented", f"no store.toml but context.store = {c['store']}")
     d = c["descriptor"]
@@ -429,6 +436,9 @@ def cases(thorough):
     for n in (0, 2):
         out.append({"kind": "toml", "where": "plan", "entries": n, "value": tuple_to_json(("s", "x"))})
     out.append({"kind": "store-absent"})
+    # a store with an empty metadata table is a store (not "no store"); a zero-length store.toml lacks the mandatory table
+    out.append({"kind": "store-empty-metadata"})
+    out.append({"kind": "unreadable", "where": "store", "how": "zero-length"})
     for where in ("store", "plan", "descriptor"):
         for how in ("non-utf8", "directory", "dangling", "malformed"):
             out.append({"kind": "unreadable", "where": where, "how": how})
@@ -482,7 +492,7 @@ def run(ctx):
     res.cov("distinct_nontrivial", nontrivial)
     res.cov("distinct_outcomes", sorted(outcomes))
     res.cov("determinism_replays", 6)
-    res.cov("rule", "platform env: all sets of <=2 (thorough: <=3 over a reduced kind set) entries with distinct names over 6 names (dots, space, '=', non-ASCII, non-UTF-8) x 9 kinds (4 file contents, directory, symlink to file/dir, dangling, non-UTF-8 content); env/platform dir missing; values of 2^k-1, 2^k, 2^k+1 bytes for k in {12,16,17,20}; target: every present/absent x value combination of the five CNB_TARGET_* variables (quick: <=2 non-default) over values {linux, '', 'a b', non-UTF-8}; TOML: every value kind (18 strings, ints incl. extremes, floats incl. inf/nan/-0, bools, 4 datetime kinds, arrays/tables depth 2) in plan entry metadata, store and descriptor metadata; all through the real detect/build runtime; directory spellings: layers / platform / buildpack directory each given plain, through a symlink, relative to the working directory, or with redundant segments (4^3 build + 4^2 detect cases), the context must name them as supplied and still find env, store and descriptor; in-process sequences: every sequence of 2..3 (thorough: ..4) programmatic libcnb_runtime_detect/libcnb_runtime_build calls in ONE process over 12 symbols (2 worlds x 3 content variants of descriptor, platform env, plan, store and target variables, one of them with the descriptor removed, x 2 phases), each step (result and context handed to the buildpack code; the files it leaves are compared by C05) compared with the same invocation run alone in a fresh process. non-trivial = case with at least one non-default input")
+    res.cov("rule", "platform env: all sets of <=2 (thorough: <=3 over a reduced kind set) entries with distinct names over 8 names (dots, leading dots, space, '=', non-ASCII, non-UTF-8) x 9 kinds (4 file contents, directory, symlink to file/dir, dangling, non-UTF-8 content); env/platform dir missing; values of 2^k-1, 2^k, 2^k+1 bytes for k in {12,16,17,20}; target: every present/absent x value combination of the five CNB_TARGET_* variables (quick: <=2 non-default) over values {linux, '', 'a b', non-UTF-8}; TOML: every value kind (18 strings, ints incl. extremes, floats incl. inf/nan/-0, bools, 4 datetime kinds, arrays/tables depth 2) in plan entry metadata, store and descriptor metadata; all through the real detect/build runtime; directory spellings: layers / platform / buildpack directory each given plain, through a symlink, relative to the working directory, or with redundant segments (4^3 build + 4^2 detect cases), the context must name them as supplied and still find env, store and descriptor; in-process sequences: every sequence of 2..3 (thorough: ..4) programmatic libcnb_runtime_detect/libcnb_runtime_build calls in ONE process over 12 symbols (2 worlds x 3 content variants of descriptor, platform env, plan, store and target variables, one of them with the descriptor removed, x 2 phases), each step (result and context handed to the buildpack code; the files it leaves are compared by C05) compared with the same invocation run alone in a fresh process. non-trivial = case with at least one non-default input")
     res.cov("exhaustive", True)
     res.sample(cs[3])
     res.sample(cs[len(cs) // 2])
